@@ -214,6 +214,7 @@ def replay_graph(ctx, pid, consts, rep, max_walks=None, label="graph"):
     covered = set()
     replayed = clean = 0
     met_counts = {}
+    selftest = None
     for w in walks:
         states = [nodes[n] for n in w]
         div, met = rp.replay(consts, states)
@@ -245,6 +246,18 @@ def replay_graph(ctx, pid, consts, rep, max_walks=None, label="graph"):
                         "divergence": _jsonable_div(div)})
         elif not met:
             clean += 1
+            if selftest is None and len(w) >= 6:
+                # binding self-test: the same behaviour with one flipped expectation must be noticed
+                bad = list(states)
+                flipped = dict(bad[4])
+                flipped["replacing"] = not flipped["replacing"]
+                bad[4] = flipped
+                d2, _ = rp.replay(consts, bad)
+                selftest = bool(d2) and d2["step"] == 4 and "replacing" in d2["diff"]
+                if not selftest:
+                    raise tlc.MachineryError("binding self-test failed: a flipped expectation was not noticed by the replay")
+    if selftest:
+        ctx.count("binding_selftest_replay_flipped_expectation_noticed")
     ctx.traces_validated += clean
     ctx.count("behaviours_replayed", replayed)
     ctx.count("behaviours_replayed_without_divergence", clean)
